@@ -15,8 +15,8 @@ import (
 
 func init() {
 	register("C13",
-		"KA-1: every potentially unbounded wait that the send goroutine can reach (all blocking selects in sendPacketsForever and its gbn callees) has a case on pongTicker.Ticks() that ends the loop with errKeepaliveTimeout, or is bounded by a timer - whatever the loop is doing (idle, sending, full window) pong expiry is observed. KA-2: on every ping-tick leg pong expiry is polled first, pongTicker.Reset+Resume and pingTicker.Reset happen on every path through the leg, the main loop's leg then sends a packet with IsPing set; pongTicker.Resume is called nowhere else; GetPingTime/GetPongTime map 0 (keepalive off) to MaxInt64 and start arms only the ping ticker. KA-3: in the receive loop every path from a successful Deserialize to the next iteration passes pingTicker.Reset and the pongTicker.IsActive test whose true leg pauses the pong ticker (a responding peer is never timed out). KA-5: both mailbox constructors enable gbn.WithKeepalivePing with positive durations, hand the stored options to the gbn constructor, and Refresh carries them over. KA-4: the error returned on pong expiry ends sendPacketsForever, whose wrapper closes the connection unconditionally. Not decided: the time bound itself; the residual race between Pause and a tick that already passed the IsActive test.",
-		[]string{"IntervalAwareForceTicker delivers ticks on Ticks() only while active (Resume/Pause)"},
+		"KA-1: every potentially unbounded wait that the send goroutine can reach (all blocking selects in sendPacketsForever and its gbn callees) has a case on pongTicker.Ticks() that ends the loop with errKeepaliveTimeout, or is bounded by a timer - whatever the loop is doing (idle, sending, full window) pong expiry is observed. KA-2: on every ping-tick leg pong expiry is polled first, pongTicker.Reset+Resume and pingTicker.Reset happen on every path through the leg, the main loop's leg then sends a packet with IsPing set; pongTicker.Resume is called nowhere else; GetPingTime/GetPongTime map 0 (keepalive off) to MaxInt64 and start arms only the ping ticker. KA-3: in the receive loop every path from a successful Deserialize to the next iteration passes pingTicker.Reset and the pongTicker.IsActive test whose true leg pauses the pong ticker (a responding peer is never timed out). KA-5: both mailbox constructors enable gbn.WithKeepalivePing with positive durations, hand the stored options to the gbn constructor, and Refresh carries them over. KA-4: the error returned on pong expiry ends sendPacketsForever, whose wrapper closes the connection unconditionally. TICK-1/2/3 (the ticker the above relies on): Resume/Pause store 1/0 atomically and unconditionally, IsActive is load == 1 and nothing else writes the flag (a reset keeps it); the ticker goroutine forwards a clock tick to Force exactly under IsActive() in a select with the skip and quit alternatives, Ticks() returns Force; a reset stops the old clock, ends and waits for the old goroutine, installs NewTicker(newInterval) and a new quit channel, remembers the interval and starts one new goroutine on every path; Reset passes the stored interval, ResetWithInterval its argument, the constructor's clock and stored interval agree. Not decided: the time bound itself; the residual race between Pause and a tick that already passed the IsActive test.",
+		[]string{"time.Ticker delivers ticks at its interval"},
 		runC13)
 }
 
@@ -66,7 +66,10 @@ func callsOnField(fn *ssa.Function, f *types.Var, name string) []ssa.CallInstruc
 	})
 }
 
-func runC13(c *Checker) { ruleKA(c) }
+func runC13(c *Checker) {
+	ruleKA(c)
+	ruleTICK(c)
+}
 
 // ruleKA: the keepalive wiring (shared by C13 and C06).
 func ruleKA(c *Checker) {
